@@ -405,5 +405,25 @@ def main(tier):
     return code
 
 
+def replay(obj):
+    if "trail" not in obj:
+        return True, obj
+    # rebuild the behaviour record from the stored trail (spec-side flags are not needed to re-run it)
+    trail = [{"act": "init", "leaf": {"k": "-", "p": [], "q": [], "c": 0}, "tree": obj["init"]}] + \
+            [{"act": a, "leaf": l, "tree": []} for a, l in obj["trail"][1:]]
+    beh = {"trail": trail, "quiet": True, "stale": [], "tree": None}
+    common.use_repo()
+    r = run_behaviour_for_replay(beh)
+    return bool(r.get("fails")), {k: r.get(k) for k in ("fails", "keys", "obs")}
+
+
+def run_behaviour_for_replay(beh):
+    # the disk-vs-spec-tree comparison is skipped (no spec state in a replay file)
+    import unittest.mock as mock
+    with mock.patch.object(common, "snapshot", lambda root, skip=(): {}):
+        beh["tree"] = []
+        return run_behaviour(beh)
+
+
 if __name__ == "__main__":
     sys.exit(main(sys.argv[1] if len(sys.argv) > 1 else "quick"))
